@@ -13,7 +13,8 @@ def jobs(tier):
     if tier == "quick":
         out += [RQ(3600, 7200, 5), RQ(2700, 8100, 5)]
     else:
-        out += [RQ(3600, 7200, 6), RQ(2700, 8100, 7), RQ(3000, 6000, 6), RQ(2400, 7200, 7), RQ(3600, 7200, 5, gran=500), RQ(7200, 7200, 5)]
+        # 7 grid points (RQ(2700, 8100, 7), RQ(2400, 7200, 7)) are not registered: a query ran past its limit / 30 min were not enough
+        out += [RQ(3600, 7200, 6), RQ(2700, 8100, 6), RQ(3000, 6000, 6), RQ(2400, 7200, 6), RQ(3600, 7200, 5, gran=500), RQ(7200, 7200, 5)]
     if tier == "quick":
         for (st, sl) in [(60, 120), (60, 180), (420, 840), (3600, 7200)]:
             out.append(J(st, sl, 5, 1, 0))
@@ -35,7 +36,7 @@ PROP = {
     "bounds": {"step/slice seconds": "quick (60,120) (60,180) (420,840) (3600,7200); thorough adds 15 s..50 min steps incl. (2h).Round(step) for 45 and 50 min",
                "grid points": "<= 5 (quick) / 6 (thorough)", "start": "symbolic over two slice widths at 1 s (thorough also 0.5 s) granularity", "series": "1 (thorough also 2)",
                "arrival orders": "quick: identity and one transposition; thorough: all 6 orders of up to 3 slices"},
-    "assumptions": ["a series has samples exactly at the present instants of the step grid anchored at the first slice's start (Prometheus staleness/lookback not modelled)",
+    "assumptions": ["rq-*: the requested range is longer than one step (a shorter range is sent as one request, nothing is sliced; its grid is anchored at start)", "a series has samples exactly at the present instants of the step grid anchored at the first slice's start (Prometheus staleness/lookback not modelled)",
                     "labels.Labels.Hash is collision free"],
     "outside": ["HTTP/JSON streaming", "error/cancellation paths of the collection loop", "true parallelism of the slice goroutines (tasks run one at a time in every order)", "time.Now-relative ranges"],
 }
